@@ -93,8 +93,8 @@ where
             if !span_ok::<I>(buf, (mp.pos, mp.pos), (rp.off, rp.off_end)) {
                 return Some(format!("zero-width probe {} at token position {}: its (empty) span is reported as {}..{}", mp.id, mp.pos, rp.off, rp.off_end));
             }
-            if mp.ctx != rp.ctx {
-                return Some(format!("context seen at probe {} (token position {}): model {} vs real {}", mp.id, mp.pos, mp.ctx.show(), rp.ctx.show()));
+            if let Some(d) = val_diff::<I>(buf, &mp.ctx, &rp.ctx) {
+                return Some(format!("context seen at probe {} (token position {}) differs at {}: model {} vs real {}", mp.id, mp.pos, d, mp.ctx.show(), rp.ctx.show()));
             }
         }
     }
